@@ -2759,6 +2759,9 @@ class PGPKeyring(collections_abc.Container, collections_abc.Iterable, collection
     def _add_key(self, pgpkey):
         pkid = id(pgpkey)
         if pkid not in self._keys:
+            if pgpkey.fingerprint is None:
+                raise ValueError("Expected: a key. Got: an object without key material")
+
             self._keys[pkid] = pgpkey
 
             # add to _{pub,priv}keys if this is either a primary key, or a subkey without one
